@@ -17,6 +17,7 @@ CLASSES = [["a", "b"], ["a", "b", "c"], ["pos", "w"], ["x"]]
 MODEL_EXTRA = ["e", "f", "g"]
 COLL_KEYS = ["m", "n", "k", "q", "r", "s"]
 NPRIORS = 14
+DERIVE_THAWS = True      # pinned code: Model.gaussian_prior_model_for_arguments starts with self.unfreeze() (Model.v: derive_thaws)
 
 
 # ---------------------------------------------------------------------------
@@ -48,6 +49,12 @@ class Mirror:
         self.classes = case["classes"]
         self.limits = {p: (lo, hi) for p, lo, hi in case["priors"]}
         self.objs = []
+        self.stale = {}        # frozen object -> labels of what changed below it since its cache could be filled
+        self.lost = {}         # frozen object -> children deleted from it while frozen
+        self.uncertain = set() # objects whose implementation flag may differ (freeze through a stale direct cache)
+        self.rewritten = set() # priors whose id Collection.__setitem__ overwrote
+        self.poisoned = set()
+        self.thawed_by_derive = set()
 
     def is_pm(self, v):
         return v[0] == "r" and v[1] < len(self.objs) and self.objs[v[1]].kind != "tuple"
@@ -67,26 +74,50 @@ class Mirror:
         """frozen objects (other than t itself) from which t is reachable"""
         return [i for i, ob in enumerate(self.objs) if ob.frozen and i != t and t in self.reach(i)]
 
-    def depth(self, o):
+    def depth(self, o, vis=()):
         d = 0
         for _, v in self.objs[o].attrs:
-            if v[0] == "r":
-                d = max(d, self.depth(v[1]))
+            if v[0] == "r" and v[1] != o and v[1] not in vis:
+                d = max(d, self.depth(v[1], vis + (o,)))
         return d + 1
 
+    def loops(self, o):
+        """does o reach a self-referential object?"""
+        return any(any(v[0] == "r" and v[1] == t for _, v in self.objs[t].attrs) for t in self.reach(o))
+
+    def relevant(self, o):
+        """finding labels that can explain a wrong answer of a query on o (see oracle)"""
+        rs = self.reach(o)
+        out = set()
+        for f in rs:
+            if self.objs[f].frozen:
+                out |= self.stale.get(f, set())
+        if rs & self.poisoned:
+            out.add("failing-walk")
+        if self.rewritten and any(l[0] == "p" and l[1] in self.rewritten
+                                  for t in rs for _, l in self.objs[t].attrs):
+            out.add("setitem-existing-key")
+        return sorted(out)
+
     # -- pure queries -----------------------------------------------------------
-    def walk(self, v, sel):
+    def walk(self, v, sel, vis=()):
+        """None = the placeholder of the recursion guard (object already being walked)"""
         t, x = v
         if t == "p":
             return [([], v)] if sel != "tuple" else []
         if t == "c":
             return [([], v)] if sel in ("info", "param") else []
+        if x in vis:
+            return None
         ob = self.objs[x]
         if sel == "tuple" and ob.kind == "tuple":
             return [([], v)]
         out = []
         for k, cv in ob.attrs:
-            for p, l in self.walk(cv, sel):
+            sub = self.walk(cv, sel, vis + (x,))
+            if sub is None:          # iterating the placeholder raises TypeError, swallowed: results so far
+                break
+            for p, l in sub:
                 out.append(([k] + p, l))
         return out
 
@@ -94,15 +125,19 @@ class Mirror:
         """models_with_type(cls, include_zero_dimension=izd): Models found with ignore_children=False"""
         out = []
 
-        def rec(v):
+        def rec(v, vis):
             if v[0] != "r":
-                return
+                return True
+            if v[1] in vis:
+                return False
             ob = self.objs[v[1]]
             if ob.kind == "model":
                 out.append(v[1])
             for _, cv in ob.attrs:
-                rec(cv)
-        rec(["r", o])
+                if not rec(cv, vis + (v[1],)):
+                    break
+            return True
+        rec(["r", o], ())
         return [[[], ["r", c]] for c in out
                 if (cls is None or self.objs[c].cls == cls) and (izd or self.count(c) > 0)]
 
@@ -124,7 +159,9 @@ class Mirror:
     class Raise(Exception):
         pass
 
-    def inst_for(self, o, args):
+    def inst_for(self, o, args, depth=0):
+        if depth > 40:
+            raise Mirror.Raise("RecursionError")
         ob = self.objs[o]
         if ob.kind == "tuple":
             return {"raw": 1}
@@ -138,7 +175,7 @@ class Mirror:
                 elif v[0] == "c":
                     fs.append([k, {"v": v[1]}])
                 elif self.is_pm(v):
-                    fs.append([k, self.inst_for(v[1], args)])
+                    fs.append([k, self.inst_for(v[1], args, depth + 1)])
                 else:
                     fs.append([k, {"raw": 1}])
             return {"o": fs}
@@ -158,7 +195,7 @@ class Mirror:
                 given[k] = {"t": vals}
         for k, v in ob.attrs:                       # child prior models
             if self.is_pm(v):
-                given[k] = self.inst_for(v[1], args)
+                given[k] = self.inst_for(v[1], args, depth + 1)
         for k, v in ob.attrs:                       # direct priors
             if v[0] == "p":
                 if v[1] not in args:
@@ -188,6 +225,21 @@ class Mirror:
             if not (lo <= v <= hi):
                 raise Mirror.Raise("PriorLimitException")
         return self.inst_for(o, args)
+
+    def unit(self, o, quarters):
+        if self.count(o) != len(quarters):
+            raise Mirror.Raise("AssertionError")
+        args = {}
+        for (_, l), q in zip(self.ordered(o), quarters):
+            lo, hi = self.limits[l[1]]
+            args[l[1]] = lo + q * (hi - lo) // 4
+        return self.inst_for(o, args)
+
+    def allpaths(self, o):
+        groups = {}
+        for p, l in self.paths(o):
+            groups.setdefault(l[1], []).append(p)
+        return [groups[k] for k in sorted(groups)]
 
     def resolve(self, o, path):
         for name in path:
@@ -222,12 +274,20 @@ class Mirror:
                 return {"ok": self.info(o)}
             if k == "models":
                 return {"ok": self.models(o, q[1], q[2])}
+            if k == "unit":
+                return {"ok": self.unit(o, q[1])}
+            if k == "allpaths":
+                return {"ok": self.allpaths(o)}
         except Mirror.Raise as e:
             return {"exc": str(e)}
         raise ValueError(q)
 
     # -- state changes ----------------------------------------------------------
     def freeze(self, o):
+        if self.objs[o].frozen and self.lost.get(o):
+            # the implementation walks its stale cached child list here: it also freezes the lost children
+            for c in self.lost[o]:
+                self.uncertain |= self.reach(c)
         for _, v in self.objs[o].attrs:
             if self.is_pm(v) and v[1] != o:
                 self.freeze(v[1])
@@ -235,9 +295,32 @@ class Mirror:
 
     def unfreeze(self, o):
         self.objs[o].frozen = False
+        self.stale.pop(o, None)        # its cache is gone
+        self.lost.pop(o, None)
         for _, v in self.objs[o].attrs:
             if self.is_pm(v) and v[1] != o:
                 self.unfreeze(v[1])
+
+    def derive_thaw(self, o, depth=0):
+        """what mapper_from_prior_arguments does to the frozen flags of the pinned code"""
+        if depth > 40:
+            return
+        ob = self.objs[o]
+        if ob.kind == "model":
+            if ob.frozen or any(self.objs[t].frozen for t in self.reach(o) if self.objs[t].kind != "tuple"):
+                self.thawed_by_derive |= {t for t in self.reach(o) if self.objs[t].kind != "tuple"}
+            self.unfreeze(o)
+        for _, v in ob.attrs:
+            if self.is_pm(v):
+                self.derive_thaw(v[1], depth + 1)
+
+    def derive_would_thaw(self, o, vis=()):
+        ob = self.objs[o]
+        if o in vis or ob.kind == "tuple":
+            return False
+        if ob.kind == "model" and any(self.objs[t].frozen for t in self.reach(o) if self.objs[t].kind != "tuple"):
+            return True
+        return any(self.is_pm(v) and self.derive_would_thaw(v[1], vis + (o,)) for _, v in ob.attrs)
 
     def set_target(self, o, name):
         """effective target of setattr (Model redirects tuple member names)"""
@@ -282,11 +365,24 @@ class Mirror:
             return {"ok": None}, []
         if k == "failwalk":
             return {"exc": "TypeError"}, ["failing-walk"]
+        if k == "derive":
+            labels = ["derive-thaws-frozen"] if self.derive_would_thaw(o) else []
+            if DERIVE_THAWS:
+                self.derive_thaw(o)
+            return ({"exc": "RecursionError"} if self.loops(o) else {"ok": None}), labels
         if k == "copy":
             self.copy_base = len(self.objs)
             self.copy(o)
             return {"ok": None}, []
-        if k == "setitem":                       # Collection.__setitem__ with a new key (or on a frozen target)
+        setitem_labels = []
+        if k == "setitem":                       # Collection.__setitem__; reference semantics: plain assignment
+            old = ob.get(str(op[2]))
+            if not ob.frozen and old is not None and old[0] != "c":
+                if self.is_pm(op[3]) and self.objs[op[3][1]].frozen:
+                    return {"exc": "AssertionError"}, []        # the id transfer is refused by the frozen value
+                if op[3][0] == "p":
+                    setitem_labels = ["setitem-existing-key"]
+                    self.rewritten.add(op[3][1])
             k, op = "set", ["set", o, str(op[2]), op[3]]
         if k in ("set", "append"):
             if ob.kind != "tuple" and ob.frozen:
@@ -295,7 +391,7 @@ class Mirror:
             if k == "set" and ob.kind == "model" and self.is_pm(v) and self.objs[v[1]].frozen:
                 return {"exc": "AssertionError"}, []
             t = self.set_target(o, op[2]) if k == "set" else o
-            labels = self.mod_labels(t)
+            labels = self.mod_labels(t) + setitem_labels
             if k == "set":
                 self.objs[t].set(op[2], v)
             else:
@@ -306,6 +402,8 @@ class Mirror:
             if ob.get(op[2]) is None:
                 return {"exc": "AttributeError"}, []
             labels = self.mod_labels(o, deleting=True)
+            if "delattr-on-frozen" in labels and self.is_pm(ob.get(op[2])):
+                self.lost.setdefault(o, set()).add(ob.get(op[2])[1])
             ob.delete(op[2])
             return {"ok": None}, labels
         raise ValueError(op)
@@ -315,9 +413,13 @@ class Mirror:
         labels = []
         if deleting and tob.kind != "tuple" and tob.frozen:
             labels.append("delattr-on-frozen")
+            self.stale.setdefault(t, set()).add("delattr-on-frozen")
         anc = self.frozen_ancestors(t)
         if anc:
-            labels.append("tuple-member-under-frozen" if tob.kind == "tuple" else "modified-under-frozen-ancestor")
+            lab = "tuple-member-under-frozen" if tob.kind == "tuple" else "modified-under-frozen-ancestor"
+            labels.append(lab)
+            for f in anc:
+                self.stale.setdefault(f, set()).add(lab)
         return labels
 
 
@@ -325,12 +427,12 @@ class Mirror:
 # generator
 # ---------------------------------------------------------------------------
 class Gen:
-    def __init__(self, rng, dirty, max_ops, failwalk=False):
-        self.rng, self.dirty, self.max_ops, self.failwalk = rng, dirty, max_ops, failwalk
+    def __init__(self, rng, dirty, max_ops, failwalk=False, ids=False):
+        self.rng, self.dirty, self.max_ops, self.failwalk, self.ids = rng, dirty, max_ops, failwalk, ids
         pri = []
         for p in range(NPRIORS):
             lo = rng.choice([0, 0, 0, 1, 2])
-            hi = lo + rng.choice([3, 5, 10, 10, 20])
+            hi = lo + rng.choice([4, 4, 8, 12, 20])      # multiples of 4: units q/4 give integers
             pri.append([p, lo, hi])
         self.case = {"classes": CLASSES, "priors": pri, "ops": []}
         self.m = Mirror(self.case)
@@ -410,7 +512,15 @@ class Gen:
         return vec
 
     def query(self, o):
-        k = self.rng.choice(["count", "count", "paths", "ordered", "instance", "instance", "info", "models"])
+        k = self.rng.choice(["count", "count", "paths", "ordered", "instance", "instance", "info", "models", "unit", "allpaths"])
+        if k in ("instance", "unit") and self.m.loops(o) and self.rng.random() < 0.8:
+            k = "count"
+        if k == "unit":
+            n = self.m.count(o)
+            qs = [self.rng.randint(0, 4) for _ in range(n)]
+            if self.rng.random() < 0.1:
+                qs = qs[:-1] if qs and self.rng.random() < 0.5 else qs + [2]
+            return ["query", o, [k, qs]]
         if k == "models":
             return ["query", o, [k, self.rng.choice([None, None, 0, 1, 2, 3]), self.rng.random() < 0.4]]
         return ["query", o, [k, self.vector(o)] if k == "instance" else [k]]
@@ -452,8 +562,24 @@ class Gen:
                 return None
             names = (CLASSES[ob.cls] + MODEL_EXTRA) if ob.kind == "model" else COLL_KEYS
             name = r.choice([n for n in names if n != "pos"] or names)
-            if ob.kind == "coll" and (ob.frozen or ob.get(name) is None) and r.random() < 0.4:
-                return ["setitem", o, name, self.leafval()]
+            if ob.kind == "coll" and r.random() < (0.7 if self.ids else 0.4):
+                if self.ids and ob.attrs and r.random() < 0.7:
+                    name = r.choice(ob.attrs)[0]            # existing key: the id of the old value is transferred
+                old = ob.get(name)
+                x = r.random()
+                if x < 0.25:
+                    cands = [i for i in pms if o not in m.reach(i) and m.depth(i) + self.height_above(o) <= 5]
+                    v = ["r", r.choice(cands)] if cands else self.leafval()
+                else:
+                    v = self.leafval()
+                    if self.ids and self.next_prior > 1 and r.random() < 0.6:
+                        v = ["p", r.randrange(self.next_prior)]      # a prior other models already hold
+                rewrites = (not ob.frozen) and old is not None and old[0] != "c" and v[0] == "p"
+                if rewrites and not self.ids:
+                    v = ["c", r.randint(1, 9)]
+                return ["setitem", o, name, v]
+            if r.random() < 0.03 and ob.kind != "tuple":
+                return ["set", o, name, ["r", o]]              # self-reference: exercises the recursion guard
             if r.random() < 0.3:
                 cands = [i for i in pms if o not in m.reach(i) and m.depth(i) + self.height_above(o) <= 5]
                 if cands:
@@ -476,8 +602,13 @@ class Gen:
                 return None
             name = r.choice(ob.attrs)[0] if r.random() < 0.9 else "zz"
             return ["del", o, name]
-        if x < 0.92:
+        if x < 0.90:
             return ["copy", r.choice(pms)] if len(m.objs) < 40 else None
+        if x < 0.93:
+            o = r.choice(pms)
+            if not self.dirty and m.derive_would_thaw(o):
+                return None
+            return ["derive", o]
         if x < 0.96:
             if len(m.objs) < 40:
                 self.new_object(r.randint(0, 1))
@@ -582,8 +713,9 @@ def gen_cases(ctx):
                 cases.append(dict(c.get("case", c), origin="corpus"))
     for i in range(n):
         x = ctx.rng.random()
-        mode = "clean" if x < 0.6 else "stale" if x < 0.85 else "poison"
-        g = Gen(ctx.rng, mode != "clean", ctx.rng.choice([12, 20, 30, 40] + ([60] if thorough else [])), failwalk=(mode == "poison"))
+        mode = "clean" if x < 0.55 else "stale" if x < 0.78 else "ids" if x < 0.90 else "poison"
+        g = Gen(ctx.rng, mode in ("stale", "poison"), ctx.rng.choice([12, 20, 30, 40] + ([60] if thorough else [])),
+                failwalk=(mode == "poison"), ids=(mode == "ids"))
         c = g.build()
         c["origin"] = mode
         cases.append(c)
@@ -599,79 +731,113 @@ def norm_answer(q, a):
     return a
 
 
-def oracle(case, res):
-    """Direct statement of C13 on the implementation's outcomes.  Returns (message, classes, op index) of the
-    first operation that violates it, or None.  `classes` are computed from the history before the failing
-    operation and only as far as they concern the object the operation addresses: a label is attached when an
-    object poisoned by a failing walk call / modified below a frozen object is reachable from it."""
+def oracle(case, res, limit=6):
+    """Direct statement of C13 on the implementation's outcomes.  Returns the list of (message, classes, op index)
+    of the operations that violate it (at most `limit`; the replay stops at the first non-query mismatch because
+    the compositions then differ).  `classes` come from the reference replay of the history BEFORE the failing
+    operation and only as far as they concern the object addressed: a frozen object carries a label while something
+    below it has changed since it was frozen (cleared when it is unfrozen, i.e. when its cache is dropped); a query
+    on o gets the labels of the frozen objects it reaches, plus `setitem-existing-key` when it holds a prior whose
+    id a Collection.__setitem__ overwrote."""
     m = Mirror(case)
-    touched = {}          # label -> set of object ids
     seen = set()
+    out = []
 
-    def relevant(o):
-        rs = m.reach(o)
-        return sorted(l for l, objs in touched.items() if objs & rs)
+    def fail(msg, classes, i):
+        out.append((msg, sorted(classes), i))
+        return len(out) >= limit
 
     for i, (op, r) in enumerate(zip(case["ops"], res["outs"])):
         k = op[0]
-        target = None
+        flags_before = [ob.frozen for ob in m.objs]
+        pre_relevant = m.relevant(op[1]) if k in ("query", "derive") else []
+        target = op[1] if k in ("set", "setitem", "append", "del") else None
         if k in ("set", "setitem"):
             target = m.set_target(op[1], op[2])
-        elif k in ("append", "del", "failwalk"):
-            target = op[1]
+        target_uncertain = target is not None and (target in m.uncertain or op[1] in m.uncertain)
         exp, labels = m.apply(op)
         got = {"exc": r["exc"]} if "exc" in r else {"ok": r.get("ok")}
         if k == "query":
-            classes = relevant(op[1])
+            classes = pre_relevant
             if "ok" in got:
                 if op[2][0] == "info" and not got["ok"].get("render_ok"):
-                    return "info text is not the rendering of the lists it was built from", classes, i
+                    if fail("info text is not the rendering of the lists it was built from", [], i):
+                        break
                 got = {"ok": norm_answer(op[2], got["ok"])}
             if got != exp:
-                return ("%s of object %d is %s but the current composition gives %s" % (
-                    op[2][0], op[1], json.dumps(got)[:300], json.dumps(exp)[:300])), classes, i
+                if fail("%s of object %d is %s but the current composition gives %s" % (
+                        op[2][0], op[1], json.dumps(got)[:300], json.dumps(exp)[:300]), classes, i):
+                    break
             sh = r.get("shadow", {})
             sh = {"ok": norm_answer(op[2], sh["ok"])} if "ok" in sh else sh
             if sh != exp:
-                return ("%s on an unfrozen deep copy of object %d is %s but the composition gives %s" % (
-                    op[2][0], op[1], json.dumps(sh)[:300], json.dumps(exp)[:300])), [], i
+                # a deep copy has no cache: only the rewritten ids can travel with it
+                if fail("%s on an unfrozen deep copy of object %d is %s but the composition gives %s" % (
+                        op[2][0], op[1], json.dumps(sh)[:300], json.dumps(exp)[:300]),
+                        [c for c in classes if c == "setitem-existing-key"], i):
+                    break
         elif k == "failwalk":
             if "exc" not in got:
-                return "the failing call did not fail", [], i
+                fail("the failing call did not fail", [], i)
+                break
+        elif k == "derive":
+            if got != exp:
+                fail("derive on object %d: outcome %s, expected %s" % (op[1], got, exp), pre_relevant, i)
+                break
+            if r.get("flags") is not None and r["flags"] != flags_before:
+                changed = [t for t, (a, b) in enumerate(zip(r["flags"], flags_before)) if a != b]
+                if fail("mapper_from_prior_arguments changed the frozen flag of objects %s" % changed,
+                        [l for l in labels if l == "derive-thaws-frozen"] +
+                        (["delattr-on-frozen"] if set(changed) & m.uncertain else []), i):
+                    break
+            if r.get("flags") is not None and r["flags"] != [ob.frozen for ob in m.objs] and not (set(range(len(m.objs))) & m.uncertain):
+                fail("frozen flags after derive differ from the reference", [], i)
+                break
         else:
-            # frozen flags of the implementation can differ from the reference only through a stale
-            # direct_tuples_with_type cache, i.e. after an unguarded delattr on a frozen object
-            classes = ["delattr-on-frozen"] if "delattr-on-frozen" in seen else []
+            # frozen flags of the implementation can differ from the reference only for objects that a freeze
+            # reached through the stale child list of a frozen object that lost an attribute (m.uncertain)
+            classes = ["delattr-on-frozen"] if target_uncertain else []
             if ("exc" in exp) != ("exc" in got) or ("exc" in exp and exp["exc"] != got["exc"]):
                 what = "a frozen object accepted a modification" if "rejected" in labels and "exc" not in got else \
                     "%s on object %d: outcome %s, expected %s" % (k, op[1] if k != "new" else -1, got, exp)
-                return what, classes, i
+                fail(what, classes, i)
+                break
             if k == "new" and "ok" in got and r.get("attrs") != m.objs[-1].attrs:
-                return "constructed object has attributes %s, expected %s" % (r.get("attrs"), m.objs[-1].attrs), [], i
+                fail("constructed object has attributes %s, expected %s" % (r.get("attrs"), m.objs[-1].attrs), [], i)
+                break
             if k == "copy":
                 new = r.get("new", [])
                 mine = m.objs[len(m.objs) - len(new):]
                 if len(new) != len(m.objs) - m.copy_base:
-                    return "copy has %d objects, expected %d" % (len(new), len(m.objs) - m.copy_base), [], i
+                    fail("copy has %d objects, expected %d" % (len(new), len(m.objs) - m.copy_base), [], i)
+                    break
+                stop = False
                 for a, b in zip(new, mine):
                     if a["kind"] != b.kind or a["attrs"] != b.attrs:
-                        return "copy differs from the original composition", [], i
+                        stop = fail("copy differs from the original composition",
+                                    ["setitem-existing-key"] if "setitem-existing-key" in m.relevant(op[1]) else [], i)
+                        break
                     if not a["cache_empty"]:
-                        return "copy carries a cache", [], i
+                        stop = fail("copy carries a cache", [], i)
+                        break
                     if a["frozen"] != b.frozen:
-                        return "copy has a different frozen flag", classes, i
-        for l in labels:
-            if l != "rejected":
-                seen.add(l)
-                touched.setdefault(l, set()).add(target)
-    comp = [ob.attrs for ob in m.objs]
-    if res["comp"] != comp:
-        return "final composition differs from the reference composition", [], len(case["ops"])
-    if "delattr-on-frozen" not in seen and res["frozen"] != [ob.frozen for ob in m.objs]:
-        return "final frozen flags %s differ from the reference %s" % (res["frozen"], [ob.frozen for ob in m.objs]), [], len(case["ops"])
-    if res.get("stale_recursion_entries") and "failing-walk" not in seen:
-        return "recursion cache not empty at the end of the history", [], len(case["ops"])
-    return None
+                        stop = fail("copy has a different frozen flag",
+                                    ["delattr-on-frozen"] if m.reach(op[1]) & m.uncertain else [], i)
+                        break
+                if stop:
+                    break
+        seen.update(l for l in labels if l != "rejected")
+    else:
+        comp = [ob.attrs for ob in m.objs]
+        if res["comp"] != comp:
+            fail("final composition differs from the reference composition",
+                 ["setitem-existing-key"] if m.rewritten else [], len(case["ops"]))
+        flags = [(a, b.frozen) for t, (a, b) in enumerate(zip(res["frozen"], m.objs)) if t not in m.uncertain]
+        if any(a != b for a, b in flags):
+            fail("final frozen flags %s differ from the reference %s" % (res["frozen"], [ob.frozen for ob in m.objs]), [], len(case["ops"]))
+        if res.get("stale_recursion_entries"):
+            fail("recursion cache not empty at the end of the history", [], len(case["ops"]))
+    return out
 
 
 def case_labels(case):
@@ -689,7 +855,7 @@ def nontrivial(case):
         k = op[0]
         if k == "freeze":
             froze = True
-        elif froze and k in ("set", "setitem", "append", "del", "unfreeze", "copy", "failwalk"):
+        elif froze and k in ("set", "setitem", "append", "del", "unfreeze", "copy", "failwalk", "derive"):
             changed = True
         elif k == "query" and froze and changed:
             return True
@@ -741,7 +907,7 @@ def cinst(i):
     return "IRaw"
 
 
-EXN = {"TypeError": "ETypeError", "AssertionError": "EAssertion", "PriorLimitException": "ELimit",
+EXN = {"RecursionError": "EOther", "TypeError": "ETypeError", "AssertionError": "EAssertion", "PriorLimitException": "ELimit",
        "KeyError": "EKeyError", "AttributeError": "EAttribute"}
 
 
@@ -755,8 +921,10 @@ def coutcome(op, r):
         return "Ok (ANat %d)" % a
     if k in ("paths", "ordered", "models"):
         return "Ok (AItems %s)" % citems(a)
-    if k == "instance":
+    if k in ("instance", "unit"):
         return "Ok (AInst (%s))" % cinst(a)
+    if k == "allpaths":
+        return "Ok (AGroups %s)" % clist([clist([cpath(p) for p in g]) for g in a])
     ents = clist(["(%s, %s, %d%%nat)" % (cpath(p), "None" if c is None else "Some %d%%nat" % c, n) for p, c, n in a["b"]])
     return "Ok (AInfo %s %d %s)" % (citems(a["a"]), a["n"], ents)
 
@@ -772,6 +940,10 @@ def cop(op):
         qq = {"count": "QCount", "paths": "QPaths", "ordered": "QOrdered", "info": "QInfo"}.get(q[0])
         if q[0] == "instance":
             qq = "(QInstance %s)" % clist(["(%d)%%Z" % x for x in q[1]])
+        if q[0] == "unit":
+            qq = "(QUnit %s)" % clist(["(%d)%%Z" % x for x in q[1]])
+        if q[0] == "allpaths":
+            qq = "QAllPaths"
         if q[0] == "models":
             qq = "(QModels %s %s)" % ("None" if q[1] is None else "(Some %d)" % q[1], "true" if q[2] else "false")
         return "OQuery %d %s" % (op[1], qq)
@@ -779,8 +951,12 @@ def cop(op):
         return "OFreeze %d" % op[1]
     if k == "unfreeze":
         return "OUnfreeze %d" % op[1]
-    if k in ("set", "setitem"):
+    if k == "set":
         return "OSet %d %s (%s)" % (op[1], cs(op[2]), cval(op[3]))
+    if k == "setitem":
+        return "OSetItem %d %s (%s)" % (op[1], cs(str(op[2])), cval(op[3]))
+    if k == "derive":
+        return "ODerive %d" % op[1]
     if k == "append":
         return "OAppend %d (%s)" % (op[1], cval(op[2]))
     if k == "del":
@@ -862,9 +1038,7 @@ def run(ctx):
         for rec in r["outs"]:
             ctx.hist("outcome", rec.get("exc", "ok"))
         ctx.hist("objects", min(len(r["frozen"]) // 5 * 5, 40))
-        bad = oracle(c, r)
-        if bad:
-            msg, classes, at = bad
+        for msg, classes, at in oracle(c, r):
             ctx.oracle["failures"] += 1
             ctx.hist("oracle-failure-class", ",".join(classes) or "none")
             ctx.failure("oracle", "op %d: %s" % (at, msg), key, classes=classes,
@@ -882,7 +1056,7 @@ def run(ctx):
                         key, impl={"outs": [{k: v for k, v in rec.items() if k not in ("shadow",)} for rec in results[i]["outs"]],
                                    "frozen": results[i]["frozen"]},
                         broken={"kind": "correspondence", "name": "C13.check_case"},
-                        found_input=oracle(cases[i], results[i]) is not None)
+                        found_input=bool(oracle(cases[i], results[i])))
         # hypothesis of C13_coherent_partial, decided inside Coq (guardedb, sound by C13_guard_checkable) on every
         # history without a finding label; on those the model must also answer every query like the fresh composition
         if os.path.exists(os.path.join(common.COQ, "C13", "Proofs3.vo")):
